@@ -156,12 +156,81 @@ let query_of = function
   | _ -> failwith "query"
 
 (* ---------- printing ---------- *)
+let b01 b = if b then "1" else "0"
 let cps (s : str) = String.concat "." (List.map (fun c -> string_of_int (int_of_n c)) s)
 let step_str = function
   | SName k -> "n:" ^ cps k
   | SIdx i -> "i:" ^ string_of_int (int_of_nat i)
 let loc_str (l : loc) = String.concat "/" ("$" :: List.map step_str l)
-let b01 b = if b then "1" else "0"
+
+(* ---------- AST -> S-expression (same format the Rust harness prints) ---------- *)
+let sx_str (s : str) = "(s" ^ String.concat "" (List.map (fun c -> " " ^ string_of_int (int_of_n c)) s) ^ ")"
+let sx_oz = function None -> "n" | Some z -> z_to_string z
+let sx_lit = function
+  | LInt z -> "(int " ^ z_to_string z ^ ")"
+  | LFloat (m, e) -> "(flt " ^ z_to_string m ^ " " ^ z_to_string e ^ ")"
+  | LStr s -> "(str " ^ sx_str s ^ ")"
+  | LBool b -> "(bool " ^ b01 b ^ ")"
+  | LNull -> "null"
+let rec sx_segment = function
+  | SegDesc s -> "(desc " ^ sx_segment s ^ ")"
+  | SegSel s -> "(sel " ^ sx_selector s ^ ")"
+  | SegSels l -> "(sels" ^ sx_selectors l ^ ")"
+and sx_selectors = function SNil -> "" | SCons (s, l) -> " " ^ sx_selector s ^ sx_selectors l
+and sx_selector = function
+  | SelName k -> "(name " ^ sx_str k ^ ")"
+  | SelWild -> "wild"
+  | SelIndex i -> "(idx " ^ z_to_string i ^ ")"
+  | SelSlice (a, b, c) -> "(slice " ^ sx_oz a ^ " " ^ sx_oz b ^ " " ^ sx_oz c ^ ")"
+  | SelFilter f -> "(filter " ^ sx_filter f ^ ")"
+and sx_segments = function GNil -> "" | GCons (s, l) -> " " ^ sx_segment s ^ sx_segments l
+and sx_filters = function FNil -> "" | FCons (f, l) -> " " ^ sx_filter f ^ sx_filters l
+and sx_filter = function
+  | FOr l -> "(or" ^ sx_filters l ^ ")"
+  | FAnd l -> "(and" ^ sx_filters l ^ ")"
+  | FAtom a -> "(atom " ^ sx_atom a ^ ")"
+and sx_atom = function
+  | AFilter (f, n) -> "(afilter " ^ sx_filter f ^ " " ^ b01 n ^ ")"
+  | ATest (t, n) -> "(atest " ^ sx_test t ^ " " ^ b01 n ^ ")"
+  | ACmp (op, l, r) ->
+    let o = (match op with OpEq -> "eq" | OpNe -> "ne" | OpGt -> "gt" | OpGe -> "ge" | OpLt -> "lt" | OpLe -> "le") in
+    "(cmp " ^ o ^ " " ^ sx_comparable l ^ " " ^ sx_comparable r ^ ")"
+and sx_comparable = function
+  | CLit l -> "(lit " ^ sx_lit l ^ ")"
+  | CFn f -> "(fn " ^ sx_tfun f ^ ")"
+  | CSq q ->
+    let (k, segs) = (match q with SqCur l -> ("cur", l) | SqRoot l -> ("root", l)) in
+    "(sq " ^ k ^ String.concat "" (List.map (function SqIndex i -> " (i " ^ z_to_string i ^ ")" | SqName n -> " (n " ^ sx_str n ^ ")") segs) ^ ")"
+and sx_test = function
+  | TRel l -> "(rel" ^ sx_segments l ^ ")"
+  | TAbs l -> "(abs" ^ sx_segments l ^ ")"
+  | TFn f -> "(tfn " ^ sx_tfun f ^ ")"
+and sx_tfun = function
+  | FnCustom (n, args) -> "(custom " ^ sx_str n ^ sx_fnargs args ^ ")"
+  | FnLength a -> "(length " ^ sx_fnarg a ^ ")"
+  | FnValue a -> "(value " ^ sx_fnarg a ^ ")"
+  | FnCount a -> "(count " ^ sx_fnarg a ^ ")"
+  | FnSearch (a, b) -> "(search " ^ sx_fnarg a ^ " " ^ sx_fnarg b ^ ")"
+  | FnMatch (a, b) -> "(match " ^ sx_fnarg a ^ " " ^ sx_fnarg b ^ ")"
+and sx_fnarg = function
+  | ArgLit l -> "(argl " ^ sx_lit l ^ ")"
+  | ArgTest t -> "(argt " ^ sx_test t ^ ")"
+  | ArgFilter f -> "(argf " ^ sx_filter f ^ ")"
+and sx_fnargs = function ANil -> "" | ACons (a, l) -> " " ^ sx_fnarg a ^ sx_fnargs l
+let sx_query q = "(q" ^ sx_segments q ^ ")"
+
+let handle_parse id cps =
+  let s = str_of (parse_sexp cps) in
+  (match parse_query s with
+   | POk q -> Printf.printf "%s\tM\tOK\t%s\n" id (sx_query q)
+   | PErr -> Printf.printf "%s\tM\tERR\n" id
+   | PInfLit -> Printf.printf "%s\tM\tINF\n" id
+   | POutOfFuel -> Printf.printf "%s\tM\tOUTOFFUEL\n" id);
+  (match rfc_parse s with
+   | RfcValid q -> Printf.printf "%s\tR\tVALID\t%s\n" id (sx_query q)
+   | RfcExtension q -> Printf.printf "%s\tR\tEXT\t%s\n" id (sx_query q)
+   | RfcIllTyped q -> Printf.printf "%s\tR\tILLTYPED\t%s\n" id (sx_query q)
+   | RfcInvalid -> Printf.printf "%s\tR\tINVALID\n" id)
 
 let handle_eval id ast doc =
   let q = query_of (parse_sexp ast) in
@@ -188,6 +257,10 @@ let () =
         match String.split_on_char '\t' line with
         | ["EVAL"; id; ast; doc] ->
           (try handle_eval id ast doc
+           with Failure m -> Printf.printf "%s\tM\tBADCASE\t%s\n" id m
+              | Stack_overflow -> Printf.printf "%s\tM\tSTACK\n" id)
+        | ["PARSE"; id; cps] ->
+          (try handle_parse id cps
            with Failure m -> Printf.printf "%s\tM\tBADCASE\t%s\n" id m
               | Stack_overflow -> Printf.printf "%s\tM\tSTACK\n" id)
         | kind :: id :: _ -> Printf.printf "%s\tM\tUNKNOWN\t%s\n" id kind
